@@ -690,6 +690,7 @@ class Fn:
                         if nm not in out:
                             out.append(nm)
                 elif n.get('kind') != 'UnaryOperator':
+                    # a store through a pointer expression: `p[i]`, `*p`, `*p++`, `mzd_row(X, r)[i]`, `(p + k)[i]` ...
                     b = t
                     if b.get('kind') == 'ArraySubscriptExpr':
                         b = strip(b['inner'][0])
@@ -697,10 +698,27 @@ class Fn:
                         b = strip(b['inner'][0])
                         if b.get('kind') == 'UnaryOperator' and b.get('opcode') in ('++', '--'):
                             b = strip(b['inner'][0])
-                    if b.get('kind') == 'DeclRefExpr' and b['referencedDecl']['name'] in self.ptr_mem:
+                    else:
+                        raise CTransError('%s: assignment to an unsupported lvalue (%s)' % (self.name, b.get('kind')))
+                    while True:
+                        while b.get('kind') in ('CStyleCastExpr', 'ImplicitCastExpr', 'ParenExpr'):
+                            b = strip(b['inner'][0])
+                        if b.get('kind') == 'BinaryOperator' and b.get('opcode') in ('+', '-'):
+                            b = strip(b['inner'][0])
+                            continue
+                        break
+                    mc_ = self.mzd_row_call(b)
+                    mem = None
+                    if mc_:
+                        mem = 'mem_' + self.malias_pre.get(mc_[0], mc_[0])
+                    elif b.get('kind') == 'DeclRefExpr' and b['referencedDecl']['name'] in self.ptr_mem:
                         mem = self.ptr_mem[b['referencedDecl']['name']]
-                        if mem not in out:
-                            out.append(mem)
+                    elif b.get('kind') == 'DeclRefExpr' and b['referencedDecl']['name'] in self.arrays:
+                        mem = None        # a local constant array is never written (checked at translation)
+                    else:
+                        raise CTransError('%s: store through a pointer whose memory is unknown' % self.name)
+                    if mem and mem not in out:
+                        out.append(mem)
             if k == 'CallExpr' and strip(n['inner'][0]).get('referencedDecl', {}).get('name') in ('memcpy', '__builtin_memcpy', '__builtin___memcpy_chk'):
                 d_ = strip(n['inner'][1])
                 while d_.get('kind') in ('CStyleCastExpr', 'ImplicitCastExpr'):
@@ -777,6 +795,23 @@ class Fn:
                     walk(c)
         walk(body)
         return out
+
+    def has_effects(self, stmts):
+        IGN = ('m4ri_die', '__assert_fail', 'assert', 'abort', 'mzd_free_window', 'mzp_free_window', 'mzd_free', 'mzp_free', 'printf')
+
+        def walk(n):
+            k = n.get('kind')
+            if (k == 'BinaryOperator' and n.get('opcode') == '=') or k == 'CompoundAssignOperator' or \
+               (k == 'UnaryOperator' and n.get('opcode') in ('++', '--')):
+                return True
+            if k == 'CallExpr':
+                cal = strip(n['inner'][0])
+                if cal.get('referencedDecl', {}).get('name') not in IGN:
+                    return True
+            if k == 'ReturnStmt':
+                return True
+            return any(isinstance(c, dict) and walk(c) for c in n.get('inner', []))
+        return any(walk(x) for x in stmts)
 
     def has_own(self, stmts, kind):
         """does `stmts` contain a statement of `kind` that belongs to this loop (not to a nested loop / switch)?"""
@@ -900,6 +935,8 @@ class Fn:
             if self.has(inner, ('ReturnStmt', 'BreakStmt', 'ContinueStmt')):
                 return self.seq(inner + rest, k_final, ind)
             if not outs:
+                if self.has_effects(inner):
+                    raise CTransError('%s: a block with effects assigns nothing the translation models' % self.name)
                 return self.seq(rest, k_final, ind)
             blk = self.scoped(lambda: self.seq(inner, lambda: self.tup(outs), ind + 1))
             return '%slet %s :=\n%s\n%s' % (pad, self.tup(outs), blk, self.seq(rest, k_final, ind))
@@ -1073,6 +1110,10 @@ class Fn:
                                                          self.scoped(lambda: self.seq(el + rest, k_final, ind + 1)))
             outs = [x for x in self.assigned(tl + el) if x in self.locals]
             if not outs:
+                # nothing this translation models is assigned in either branch: only allowed for guards (die / assert /
+                # frees), never for a statement with an effect -- a dropped store would silently falsify the translation
+                if self.has_effects(tl + el):
+                    raise CTransError('%s: an if-statement with effects assigns nothing the translation models' % self.name)
                 return self.seq(rest, k_final, ind)
             t = self.tup(outs)
             ty = self.tup_type(outs)
